@@ -53,6 +53,9 @@ where
     let (stop_channel, stop_callback) = oneshot::channel::<()>();
     let task_handle = async_rt::task::spawn(async move {
         let mut stop_callback = stop_callback.fuse();
+        // Dropped when this task ends, which wakes every handshake still in progress.
+        let (_handshakes_stop, handshakes_stopped) = futures::channel::oneshot::channel::<()>();
+        let handshakes_stopped = handshakes_stopped.shared();
         loop {
             select! {
                 incoming = listener.accept().fuse() => {
@@ -60,7 +63,19 @@ where
                         let peer_addr = peer_addr.as_pathname().map(|a| a.to_owned());
                         (make_framed(raw_socket), Endpoint::Ipc(peer_addr))
                     }).map_err(|err| err.into());
-                    async_rt::task::spawn(cback(maybe_accepted));
+                    // The handshake runs in its own task, but not beyond the life of
+                    // this listener: a peer that never completes it must not keep its
+                    // connection (and the socket's backend) alive after unbind/close.
+                    let handshake = cback(maybe_accepted);
+                    let stopped = handshakes_stopped.clone();
+                    async_rt::task::spawn(async move {
+                        let handshake = handshake.fuse();
+                        futures::pin_mut!(handshake);
+                        select! {
+                            _ = handshake => {},
+                            _ = stopped.fuse() => {},
+                        }
+                    });
                 },
                 _ = stop_callback => {
                     log::debug!("Accept task received stop signal. {:?}", listener_addr);
